@@ -378,7 +378,9 @@ func (c *FnCtx) applyContract(st *State, v ssa.Value, callee *ssa.Function, sp *
 		}
 		if c.spec != nil && !c.dry {
 			c.emit(&Obligation{Name: fmt.Sprintf("%s.call.%s.%s", c.spec.oname(), callee.Name(), lbl), Kind: "requires", Clause: r.src, Where: c.where(ins), Hyp: st.pc, Goal: t})
-			c.assume(implies(st.pc, t))
+			// execution continues under the precondition (never assumed globally:
+			// the obligation itself must not be able to use it)
+			st.pc = c.define("pc.req", "Bool", and(st.pc, t))
 		}
 	}
 	// frame
